@@ -233,7 +233,14 @@ def store_modules():
 def apply_op(root, op, cut=None):
     """Apply one recorded operation below `root`.  `cut` shortens a write to its first `cut` bytes."""
     kind = op[0]
-    p = lambda r: _os.path.join(root, r)      # noqa: E731
+    def p(r):
+        if not _os.path.isabs(r):
+            return _os.path.join(root, r)
+        # a path outside the traced root (e.g. a temp file in the system temp directory) is replayed in a shadow
+        # directory next to the replay root, never at its real place
+        q = _os.path.join(root.rstrip(_os.sep) + '.outside', r.lstrip(_os.sep))
+        _os.makedirs(_os.path.dirname(q), exist_ok=True)
+        return q
     if kind == 'create':
         fd = _os.open(p(op[1]), _os.O_CREAT | _os.O_WRONLY | _os.O_TRUNC, 0o664)
         _os.close(fd)
@@ -276,4 +283,7 @@ def copy_tree(src, dst):
     copied as independent files (the readers only look at content)."""
     if _os.path.exists(dst):
         shutil.rmtree(dst)
+    shutil.rmtree(dst.rstrip(_os.sep) + '.outside', ignore_errors=True)
     shutil.copytree(src, dst, symlinks=True)
+    if _os.path.isdir(src.rstrip(_os.sep) + '.outside'):
+        shutil.copytree(src.rstrip(_os.sep) + '.outside', dst.rstrip(_os.sep) + '.outside', symlinks=True)
